@@ -285,6 +285,10 @@ NOT_APPLICABLE = {
 
 # clauses added in rounds 3 and 4 (DESIGN.md 10.10 / 10.11); appended to the texts above
 EXTRA_TEXT = {
+    "C12": " Also: DS digest input is canonical owner + canonical RDATA (C12.digest); RSA key length window is 1..=512 octets (C12.rsa); key tag reads all four fields and every key octet (C12.tag); canonical order == canonical form per field (C04.canon); every RFC 4034 6.2 type has a typed variant (C12.types, four known findings: AFSDB, RT, PX, KX).",
+    "C14": " Also: the memoised signature verdict does not read the clock, the validity period is tested in front of the cache (C14.cache); no panicking Duration/Instant arithmetic (C14.panic); the signer handed to create_child_node is never an intermediate node (C14.signer); the signer name decides the zone only if the owner ends with it (C14.target); both callers of the wildcard non-existence check exclude name == *.<ce> (C14.wild); every answer-section RRset's state enters the verdict (C14.every); 'no SOA' is bogus only after the chain of trust was consulted (C14.nosoa); nsec3_in_range strict (C14.range); every chain link's state folded (C14.chain).",
+    "C15": " Also: free-slot search sees the slot vacant (C15.slot); datagram receive loop waits against a per-attempt deadline (C15.dgdl); settable / applied timeout fields agree (C15.cfg); synthesized replies set QR (C15.synth); the stream timer restarts only for a matched message (C15.timer); check_stream compares the question (or sees it empty) in every state (typestate, C15.xfr); accepting a request never raises the timeout pending requests run under (C15.raise).",
+    "C17": " Also: the XFR interpreter's serial regression test is RFC 1982 '<' (C17.ixfr); Timestamp::scan reduces modulo 2^32 (C17.wrap).",
     "C01": " Shared with other checks: ParsedName's compressed flag (C03.flag) and the alphabet-index bound of the base16/32/64 encoders used by Display (C18.enc).",
     "C02": " Also: each backward section conversion reaches rewind() of every later section and each rewind zeroes its own count (C02.rewind); header fields written in place by a builder inside a push closure are restored when the push fails (C02.hdr); skip and parse accept the same names (C01.skip). Thorough tier additionally builds compile-fail witnesses for the section typestates.",
     "C03": " Also: validated name types are built directly (struct literal) only inside an unsafe fn, from a validated value or behind a validator, and every *_unchecked constructor is an unsafe fn (C03.raw); the zone-file reader never continues past an empty label (C06.empty). Thorough tier additionally builds compile-fail witnesses (unsafe constructors, no mutable access to a name's octets).",
@@ -387,7 +391,7 @@ def main():
         print("MANIFEST.json written (jsonschema not available in this interpreter)")
 
 
-SOURCE_COMMITS = ["6d017b8", "5bee0e2", "d442263", "1972f03", "e564cac", "7c5564a", "eac9679", "3d7d923", "6138459", "e52828b", "7010af2", "d5ab2d6", "a685388", "e5bfc9a", "cd1aabd", "ad18f81", "92ad9aa", "b54ddd7", "19d8022", "67c1438", "79fdcf6", "612a098", "eebdc4e", "a13d47c", "92032bf", "dc91e56", "541c366", "0c29f11", "76a1f96", "4e6bc4f", "1adac4f", "b093332", "a68cf5e", "7fa11bf", "512fa49", "83c1bef", "d022787", "e15cdb0", "72be92d", "9e0e81f", "f5febfc", "25bac66", "6afefb9", "5ea8bd0", "035a8f6", "de96948", "32f41c1", "f4ad043", "d16e652", "7343cc7", "88025d9", "f19e51a", "b0cb879", "45a5746", "95f7824", "919a66c", "7ddf2a5", "cb00364", "3436097", "af9dac3", "66c14a6", "3f87cdf", "5bcd2dd"]
+SOURCE_COMMITS = ["6d017b8", "5bee0e2", "d442263", "1972f03", "e564cac", "7c5564a", "eac9679", "3d7d923", "6138459", "e52828b", "7010af2", "d5ab2d6", "a685388", "e5bfc9a", "cd1aabd", "ad18f81", "92ad9aa", "b54ddd7", "19d8022", "67c1438", "79fdcf6", "612a098", "eebdc4e", "a13d47c", "92032bf", "dc91e56", "541c366", "0c29f11", "76a1f96", "4e6bc4f", "1adac4f", "b093332", "a68cf5e", "7fa11bf", "512fa49", "83c1bef", "d022787", "e15cdb0", "72be92d", "9e0e81f", "f5febfc", "25bac66", "6afefb9", "5ea8bd0", "035a8f6", "de96948", "32f41c1", "f4ad043", "d16e652", "7343cc7", "88025d9", "f19e51a", "b0cb879", "45a5746", "95f7824", "919a66c", "7ddf2a5", "cb00364", "3436097", "af9dac3", "66c14a6", "3f87cdf", "5bcd2dd", "1be02a6"]
 
 if __name__ == "__main__":
     main()
